@@ -105,6 +105,15 @@ def do_run(only=None):
 
 if __name__ == '__main__':
     os.makedirs(SCR, exist_ok=True)
+    if sys.argv[1] == 'show':
+        bid, prop = sys.argv[2], sys.argv[3]
+        base = BEN if os.path.isdir(os.path.join(BEN, bid)) else os.path.join(VERIF, 'seeded')
+        d = scratch('show_' + bid)
+        run(['patch', '-p1', '--no-backup-if-mismatch', '-i', os.path.join(base, bid, 'patch.diff')], d)
+        rc, out = run([os.path.join(VERIF, 'check'), prop, '--repo', d, '--no-write'] + sys.argv[4:], VERIF)
+        print(out)
+        print('kept scratch copy at', d)
+        sys.exit(0)
     if sys.argv[1] == 'import':
         do_import(sys.argv[2])
     else:
